@@ -294,7 +294,12 @@ class Unit:
             try:
                 CS, cargs, cout = self.concrete(values)
                 # the floats actually used may differ from the model rationals: re-check the path condition
-                ok = all(bool(K.evalz(p, CS.env, CS.ufs)) for p in ctx.pc)
+                try:
+                    ok = all(bool(K.evalz(p, CS.env, CS.ufs)) for p in ctx.pc)
+                except KeyError:
+                    # the path condition mentions internal variables (e.g. digits of a rendered number, determined by axioms):
+                    # let the solver decide whether the concrete inputs lie on this path
+                    ok = _on_path(ctx, CS)
             except (PreconditionFailed, KeyError, ZeroDivisionError):
                 ok = False
             if not ok:
@@ -304,6 +309,8 @@ class Unit:
                     problems = cmp(S, args, out, CS, cargs, cout)
             except (KeyError, ZeroDivisionError) as e:
                 problems = [f"comparison failed: {e!r}"]
+            if problems is None:
+                continue                       # the unit declares this model not comparable (over-approximating stub): next model
             if not problems:
                 state["witness_ok"] += 1
                 if attempt < len(cands):
@@ -331,6 +338,21 @@ class Unit:
             state["witness_failed"].append(failures[0])
         else:
             state["witness_skipped"] += 1
+
+
+def _on_path(ctx, CS):
+    from fractions import Fraction
+    fix = []
+    for n, c in ctx.inputs.items():
+        if n not in CS.env:
+            return False
+        if c.sort() == z3.RealSort():
+            fix.append(c == K.realval(Fraction(CS.env[n])))
+        elif c.sort() == z3.IntSort():
+            fix.append(c == int(CS.env[n]))
+        else:
+            return False
+    return ctx._check(*fix)[0] == "sat"
 
 
 def amplify(e, q=Fraction(1, 4)):
